@@ -4,6 +4,8 @@ package csproto
 
 import (
 	"errors"
+	"fmt"
+	"sync"
 
 	gogotypes "github.com/gogo/protobuf/types"
 	"google.golang.org/protobuf/types/known/wrapperspb"
@@ -144,7 +146,51 @@ func c11WantType(k int) MessageType {
 }
 
 // classification is correct and stable: the first use and every later use (cache hit) agree
+// c11NativeConcurrent: first use of many types by 32 goroutines at once; every caller must get the right answer
+func c11NativeConcurrent() {
+	type tc struct {
+		v    interface{}
+		want MessageType
+	}
+	cases := []tc{
+		{&wrapperspb.StringValue{}, MessageTypeGoogle}, {&wrapperspb.BoolValue{}, MessageTypeGoogle}, {&wrapperspb.BytesValue{}, MessageTypeGoogle},
+		{&wrapperspb.DoubleValue{}, MessageTypeGoogle}, {&wrapperspb.FloatValue{}, MessageTypeGoogle}, {&wrapperspb.Int32Value{}, MessageTypeGoogle},
+		{&wrapperspb.Int64Value{}, MessageTypeGoogle}, {&wrapperspb.UInt32Value{}, MessageTypeGoogle}, {&wrapperspb.UInt64Value{}, MessageTypeGoogle},
+		{&gogotypes.StringValue{}, MessageTypeGogo}, {&gogotypes.BoolValue{}, MessageTypeGogo}, {&gogotypes.BytesValue{}, MessageTypeGogo},
+		{&gogotypes.DoubleValue{}, MessageTypeGogo}, {&gogotypes.Int32Value{}, MessageTypeGogo}, {&gogotypes.Int64Value{}, MessageTypeGogo},
+		{&gogotypes.Timestamp{}, MessageTypeGogo}, {&gogotypes.Duration{}, MessageTypeGogo}, {&gogotypes.Empty{}, MessageTypeGogo},
+		{&c11Legacy{}, MessageTypeGoogleV1}, {&c11FastV2{}, MessageTypeGoogle}, {&c11V1V2{}, MessageTypeGoogle},
+	}
+	bad := make(chan string, 1024)
+	for _, c := range cases {
+		var start, done sync.WaitGroup
+		start.Add(1)
+		for g := 0; g < 32; g++ {
+			done.Add(1)
+			go func(c tc) {
+				defer done.Done()
+				start.Wait()
+				if got := MsgType(c.v); got != c.want {
+					select {
+					case bad <- fmt.Sprintf("%T classified %v, want %v", c.v, got, c.want):
+					default:
+					}
+				}
+			}(c)
+		}
+		start.Done()
+		done.Wait()
+	}
+	close(bad)
+	for b := range bad {
+		verifAssert(false, "native: concurrent first use gives every goroutine the correct classification: "+b)
+	}
+}
+
 func H_C11_MsgType() {
+	if verifNative() {
+		c11NativeConcurrent()
+	}
 	c := &c11Counters{}
 	m, k := c11Pick("m", c)
 	first := MsgType(m)
@@ -175,7 +221,7 @@ func H_C11_Marshal() {
 		}
 	case c11Gogo:
 		if verifNative() {
-			verifAssert2(err == nil, len(b) == 3, "a gogo message marshals through its generated method")
+			verifAssert2(err == nil, len(b) == 3, "native: a gogo message marshals through its generated method")
 		}
 	default:
 		verifAssert2(err == ErrMarshaler, b == nil, "an unsupported value yields the documented error, not a panic")
@@ -203,7 +249,7 @@ func H_C11_Size() {
 	// Size and Marshal come from the same tier, so Size equals the length of the marshaled bytes
 	if verifNative() && (k == c11V2 || k == c11Gogo || k == c11CandFastV2 || k == c11CandV1V2) {
 		b, err := Marshal(m)
-		verifAssert(err != nil || len(b) == n, "Size equals the length of the marshaled bytes")
+		verifAssert(err != nil || len(b) == n, "native: Size equals the length of the marshaled bytes")
 	}
 	verifReach("end")
 }
@@ -222,7 +268,7 @@ func H_C11_Unmarshal() {
 		if !verifNative() {
 			verifAssert(verifCalled("google.golang.org/protobuf/proto.Unmarshal"), "a plain v2 message is decoded by the v2 runtime")
 		} else {
-			verifAssert(err == nil, "the v2 runtime decodes the bytes")
+			verifAssert(err == nil, "native: the v2 runtime decodes the bytes")
 		}
 	case c11Gogo, c11TypedNilV2:
 	default:
@@ -262,7 +308,7 @@ func H_C11_Clone() {
 		if !verifNative() {
 			verifAssert(verifCalled("google.golang.org/protobuf/proto.Clone"), "a v2 message is cloned by the v2 runtime")
 		} else if k == c11V2 {
-			verifAssert(Equal(r, m), "the clone equals the original")
+			verifAssert(Equal(r, m), "native: the clone equals the original")
 		}
 	case MessageTypeGogo:
 		if !verifNative() {
